@@ -55,6 +55,13 @@ def scripts_for(pid, tier, seed, rep):
         ln = rng.choice([20, 40, 80, 200]) if tier == "thorough" else rng.choice([20, 40, 80])
         # C01 is about commands and replies; every other of its random scripts also has events and listeners around them
         scripts.append(("random", cc.random_script(rng, ln, lose=(pid == "C03"), events=(pid != "C01" or i % 2 == 1))))
+    if pid in ("C01", "C03"):
+        # a command text outside ASCII among ordinary ones, then (C03) the connection is lost with everything unanswered
+        for clean in (False, True):
+            for k in (1, 2):
+                pre = [dict(a="Submit", k="plain")] * k + [dict(a="Submit", k="na"), dict(a="Submit", k="plain"), dict(a="Submit", k="cb")]
+                tail = [dict(a="Lose", clean=clean, local=False), dict(a="Submit", k="plain")] if pid == "C03" else []
+                scripts.append(("nonascii", [dict(x) for x in pre + tail]))
     if pid == "C03":
         # crash points: loss injected at every step of a base script and at byte offsets of the pending line
         base = [s for src, s in scripts if src == "tlc"][: (6 if tier == "quick" else 60)]
